@@ -4,16 +4,19 @@ from fractions import Fraction
 from .. import sched_gen, sched_impl, sched_suite
 
 PROPERTY = "C01"
-LEAN_MODULE = "IsobarV.Props.C01"
+LEAN_MODULE = "IsobarV.Props.C01Float"
+CHECKER_MODULES = ["IsobarV.Props.C01", "IsobarV.Sched.Onset", "IsobarV.Sched.FloatTime", "IsobarV.Props.C01Float"]
 THEOREMS = ["IsobarV.C01." + t for t in (
     "onset_closed_form", "firstTick_iff_cdiv", "onset_from_start", "no_drift", "rounding_independent",
-    "nudge_shift", "local_time_advances", "performSolo_clock", "solo_clock")]
+    "nudge_shift", "local_time_advances", "performSolo_clock", "solo_clock",
+    # the float clock of the implementation (abstract rounding function): lean/IsobarV/Props/C01Float.lean
+    "tick_time_never_drifts", "tick_time_within_guard")] + ["IsobarV.FloatTime.step_exact", "IsobarV.FloatTime.clock_exact"]
 RULE = ("(a) random histories (1-3 tracks, on/off-grid durations >= 1 tick, quantize/delay starts, nudges, updates) run on the real "
         "Timeline and on the Lean model, diffed tick by tick; (b) single-track runs checked against the closed form "
         "start + ceil(S_k / q) computed in exact rationals; (c) long runs (10^5 .. 2*10^6 ticks) against the closed form. "
         "non-trivial = at least one off-grid duration or a nudge or >= 10^4 ticks")
 ASSUMPTIONS = ["durations are rationals with small denominators: distinct exact times are >= 1e-6 beats apart, far above the code's 5e-9 comparison tolerance",
-               "the model has no floats: float drift of the implementation can only be exhibited by the long runs, never proved absent"]
+               "the model has no floats: float drift of the implementation can only be exhibited by the long runs (10^5 .. 2*10^6 ticks), never proved absent; since the fixes fb10b52 / cbcd7cb no run exhibits it"]
 
 PROF = sched_gen.profile(
     n_streams=(1, 3), p_chord=0.05, p_subtick=0.0, p_rest=0.02, p_zero_amp=0.02, p_zero_gate=0.02, p_inactive=0.02,
@@ -69,8 +72,8 @@ def observed_onsets(impl):
 
 
 def float_drift_horizon(tpb, q, durs, delay, nticks):
-    """First tick at which the float accumulations used by the code have moved >= 4e-9 beats away from
-    the exact values (current_time += 1/tpb per tick; next_event_time += float(d) per event)."""
+    """First tick at which the float values used by the code have moved >= 4e-9 beats away from the exact values
+    (current_time re-derived from the tick count every tick; next_event_time by compensated summation of float(d))."""
     U = q * tpb
     td = 1.0 / tpb
     cur = 0.0
@@ -79,6 +82,7 @@ def float_drift_horizon(tpb, q, durs, delay, nticks):
     # (vectorised: the error grows slowly; sample every tick)
     n = 0
     nxt = 0.0
+    comp = 0.0
     s = 0
     k = 0
     start = -(-delay // q)
@@ -90,10 +94,16 @@ def float_drift_horizon(tpb, q, durs, delay, nticks):
         while start + -(-s // q) <= n:
             if abs(Fraction(nxt) - Fraction(s, U)) >= Fraction(4, 10 ** 9):
                 return n
-            nxt += float(durs[k % len(durs)] / U)
+            # Track._advance_next_event_time: compensated (Kahan) summation
+            y = float(durs[k % len(durs)] / U) - comp
+            t = nxt + y
+            comp = (t - nxt) - y
+            nxt = t
             s += durs[k % len(durs)]
             k += 1
-        cur += td
+        # Timeline.time_after_tick: the time is re-derived from the tick count (no accumulation)
+        kt = cur * tpb
+        cur = (round(kt) + 1) / tpb if abs(kt - round(kt)) < 1e-6 else cur + td
         n += 1
     return horizon
 
@@ -146,11 +156,55 @@ def account_closed(ctx, res):
                                                 "expected_first_bad": res["bad"], "first_failing_clause": "closed-form onset"})
 
 
+# ---- the float clock (Timeline.time_after_tick) against the float model of lean/IsobarV/Sched/FloatTime.lean ---------
+# The model is parametric in the rounding function; for the implementation that function is IEEE double arithmetic, of
+# which CPython's `k / tpb` is the correctly rounded quotient.  The theorem's conclusion is therefore directly
+# observable: after k ticks the clock must be exactly the float `k / tpb`.
+
+def float_clock_cases(ctx):
+    import isobar as iso
+    r = ctx.rng
+    tpbs = sorted(set(sched_gen.TPBS + [r.randint(1, 2000) for _ in range(8)]))
+    for tpb in tpbs:
+        tl = iso.Timeline(tempo=120, output_device=sched_impl.RecDevice(), clock_source=sched_impl.DummyClock(ticks_per_beat=tpb))
+        if tl.ticks_per_beat != tpb:
+            ctx.note("float clock: cannot build a timeline with ticks_per_beat=%d" % tpb)
+            continue
+        bad = None
+        n = 0
+        # (1) single steps from the correctly rounded k / tpb, k spread over the whole range the theorem covers
+        ks = [0, 1, 2, 3, 99999, 100000, 2 ** 31, 2 ** 32 - 1, 4 * 10 ** 9 - 1] + [r.randrange(4 * 10 ** 9) for _ in range(ctx.scale(400, 40000))]
+        for k in ks:
+            n += 1
+            got = tl.time_after_tick(k / tpb)
+            if got != (k + 1) / tpb:
+                bad = ("single step", k, got, (k + 1) / tpb)
+                break
+        # (2) a run from 0, every step compared (the accumulation the fix removed would show from about tick 10^5)
+        t = 0.0
+        for k in range(ctx.scale(150000, 3000000)):
+            t = tl.time_after_tick(t)
+            if t != (k + 1) / tpb:
+                bad = bad or ("run from 0", k, t, (k + 1) / tpb)
+                break
+        n += 1
+        ctx.case(("float-clock", tpb), nontrivial=True, validated=False,
+                 sample={"part": "float clock", "tpb": tpb, "single_steps": len(ks), "last_time": t})
+        ctx.count("float-clock:tpb:%d" % tpb)
+        if bad:
+            ctx.violation("C01:float-clock:tpb=%d" % tpb,
+                          "Timeline.time_after_tick (%s): after tick %d the clock shows %r, the correctly rounded (k + 1) / tpb is %r"
+                          % bad, {"suite": "c01-float-clock", "tpb": tpb, "kind": bad[0], "k": bad[1],
+                                  "first_failing_clause": "clock after k ticks = fl(k / tpb) (FloatTime.clock_exact)"})
+
+
 def run(ctx):
+    float_clock_cases(ctx)
     r = ctx.rng
     # (a) model correspondence
     sched_suite.run_suite(ctx, PROF, ctx.scale(1500, 100000), "c01", [], nontrivial, signature_of)
-    # (b) closed form on short/medium runs, (c) long runs: the horizon at which float accumulation shows (known finding)
+    # (b) closed form on short/medium runs, (c) long runs: where float accumulation showed before the fixes fb10b52 /
+    # cbcd7cb (tick 100 000 at 24 PPQN with 1-beat events; tick 148 644 with 0.1-beat events) and well beyond
     tasks = []
     for i in range(ctx.scale(300, 20000)):
         tpb = r.choice(sched_gen.TPBS)
@@ -160,10 +214,13 @@ def run(ctx):
         delay = r.choice([0, 0, q * r.randint(1, 4), r.randint(1, 3 * q)])
         nticks = r.randint(50, 3000)
         tasks.append((closed_case(r, tpb, q, durs, delay, nticks, "cf%d" % i), tpb, q, durs, delay, nticks, "short"))
-    longs = [(24, 1, [24], 0, 100000)]
+    # durations that are exact in binary (1 beat) and durations that are not (0.1, 1/3, 1/9, 0.7 of a beat)
+    longs = [(24, 1, [24], 0, 100000), (24, 5, [12], 0, 160000)]
     if ctx.thorough:
         longs += [(96, 1, [96], 0, 400000), (480, 1, [480], 0, 1100000), (1920, 1, [960], 0, 2100000),
-                  (480, 3, [480], 0, 120000), (24, 5, [12], 0, 300000), (480, 7, [2400], 0, 400000)]
+                  (480, 3, [480], 0, 120000), (24, 5, [12], 0, 1500000), (480, 7, [2400], 0, 400000),
+                  (24, 3, [8], 0, 1200000), (96, 5, [48, 336], 0, 1000000), (24, 9, [24, 40, 16], 0, 1000000),
+                  (100, 3, [100], 0, 1000000), (49, 7, [49, 35], 0, 800000)]
     for tpb, q, durs, delay, nticks in longs:
         tasks.insert(0, (closed_case(r, tpb, q, durs, delay, nticks, "long%d" % tpb), tpb, q, durs, delay, nticks, "long"))
     import multiprocessing as mp
